@@ -96,8 +96,32 @@ def is_scalar(x):
     return not isinstance(x, Expr)
 
 
+class _OrderedItems:
+    """The items of a dict in their order (dask tokenizes dicts sorted by key)"""
+
+    def __init__(self, typ, items):
+        self.typ = typ
+        self.items = items
+
+    def __dask_tokenize__(self):
+        return "ordered-dict", self.typ.__name__, normalize_token(self.items)
+
+
+def _keep_dict_order(obj):
+    # The order of a dict is part of a query: it is e.g. the order of the
+    # columns of ``groupby.agg(dict)`` and visible to user functions
+    typ = type(obj)
+    if isinstance(obj, dict):
+        return _OrderedItems(typ, [(k, _keep_dict_order(v)) for k, v in obj.items()])
+    elif typ is list or typ is tuple:
+        return typ(_keep_dict_order(o) for o in obj)
+    return obj
+
+
 def _tokenize_deterministic(*args, **kwargs) -> str:
     # Utility to be strict about deterministic tokens
+    args = _keep_dict_order(args)
+    kwargs = {k: _keep_dict_order(v) for k, v in kwargs.items()}
     with config.set({"tokenize.ensure-deterministic": True}):
         return tokenize(*args, **kwargs)
 
